@@ -39,6 +39,9 @@ pub enum Strategy {
     Sticky(u32),
     /// random priorities with `d` priority-change points among the first `horizon` decisions
     Pct { d: u32, horizon: u32 },
+    /// hand over to the next thread (cyclically) at every yield point: with equal scripts the
+    /// threads run in lockstep, a few function entries apart - the same code at the same time
+    RoundRobin,
     /// follow a recorded decision list
     Replay(Vec<u8>),
 }
@@ -201,6 +204,13 @@ impl Sched {
             Strategy::Uniform => {
                 let i = g.rng.usize(cands.len());
                 cands[i]
+            }
+            Strategy::RoundRobin => {
+                // the next runnable thread after `me`, cyclically
+                match cands.iter().find(|t| me != usize::MAX && **t > me) {
+                    Some(t) => *t,
+                    None => cands[0],
+                }
             }
             Strategy::Sticky(p) => {
                 let p = *p as u64;
